@@ -96,6 +96,15 @@ func (e *Engine) VerifyFunc(name string, opts UnitOpts) (u *Unit, err error) {
 			u.assume(st, not(gv.T))
 		}
 	}
+	if pk := pkgOf(fn); pk != nil && !isInit {
+		for k, ax := range e.Specs.Axioms {
+			if e.Specs.AxiomPkg[k] != pk.Name() {
+				continue
+			}
+			u.assume(st, ctx.evalBool(ax.E))
+			u.note("axiom " + ax.Label + " (" + ax.Src + ")")
+		}
+	}
 	for _, r := range ct.Requires {
 		u.assume(st, ctx.evalBool(r.E))
 	}
